@@ -22,7 +22,8 @@
 (* An empty message has the empty wire image, so unmarshaling it must      *)
 (* leave an empty destination whatever the destination held before.        *)
 (*                                                                         *)
-(* Machine state: url, w (payload), pt/pc (ghosts: the type index and the  *)
+(* Machine state: url, name and is (MessageName(url), MessageIs(url, T),   *)
+(* kept with the URL), w (payload), pt/pc (ghosts: the type index and the  *)
 (* content that produced the payload), dst.  Steps [a, t, c, o, u]:        *)
 (*   fill  dst := a fresh message with content c                           *)
 (*   new   anypb.New(src) resp. MarshalFrom(a, src, {AllowPartial}) with   *)
